@@ -137,6 +137,13 @@ def rule_gating(ctx, rep, pid):
         for bb in bal_blocks:
             for (b2, f2, a2, t2) in calls(fa):
                 if b2 == bb:
+                    if len(a2) >= 2 and a2[1] == ('param', 2) and fn.inputs[1:2] == ['usize']:
+                        # index form: below_action_limits(mi, ..)
+                        rep.ob(pid + '.R1', fn, 'limits-evaluated-on-own-runtime', True, 'arguments: %s' % ', '.join(show(x)[:60] for x in a2[1:]))
+                        continue
+                    if len(a2) < 3:
+                        rep.ob(pid + '.R1', fn, 'limits-evaluated-on-own-runtime', False, 'arguments: %s' % ', '.join(show(x)[:60] for x in a2[1:]))
+                        continue
                     okr = a2[1][0] == 'ref' and unload(a2[1][1])[0] == 'idx' and unload(a2[1][1])[2] == ('param', 2) and is_field(unload(a2[1][1])[1], 'runtime')
                     m = a2[2]
                     okm = m[0] == 'ref' and m[1][0] == 'idx' and m[1][2] == ('param', 2) and 'machines' in field_chain(m[1])
@@ -655,6 +662,9 @@ def per_helper_or_composite(ctx, rep, pid, rules):
             r(ctx, sub, pid)
     except AnchorMissing as e:
         sub.fail_closed(pid + '.anchor', str(e))
+    except (IndexError, KeyError, TypeError, AttributeError) as e:
+        # a predicate with another parameter list than the rules expect: not judged here
+        sub.fail_closed(pid + '.anchor', 'per-predicate rules not applicable (%s: %s)' % (type(e).__name__, e))
     if not sub.failing():
         rep.absorb(sub)
         return
